@@ -5,6 +5,8 @@ cd "$(dirname "$0")"
 export CARGO_NET_OFFLINE=true
 python3 tools/extract_tables.py
 (cd lean && lake build SaphyrVerif modeldrv)
+# every proof module up front, so that a check only re-checks what changed since
+(cd lean && lake build $(ls SaphyrVerif/Props/*.lean | sed 's#/#.#g; s#\.lean$##'))
 [ -f harness/Cargo.lock ] || cp /repo/Cargo.lock harness/Cargo.lock
 (cd harness && cargo build --release --offline)
 echo setup-ok
